@@ -144,7 +144,63 @@ theorem templates_unchanged_in_safe_mode (env : Env) (fuel : Nat) (src : Str) (s
   obtain ⟨q, r, b, _⟩ := st.defs hm
   exact ⟨r, q, b⟩
 
+/-! ## 6. special characters cannot be switched off from a safe-mode source, nor by options left pending -/
+
+/-- **In a non-zero safe mode the block's `specials` processing is the definition's own**: whatever Block Attributes
+    options are pending (including a `-specials` left by an earlier render at safe mode 0), a block whose definition
+    escapes special characters is rendered with them escaped. -/
+theorem specials_stay_on_in_safe_mode (d : BlockDef) (s : Session) (hm : s.safeMode ≠ 0)
+    (hd : d.expand.specials = some true) :
+    ∃ e, (blockExpand d).run s = .ok (e, s) ∧ e.specials = some true := by
+  unfold blockExpand
+  rw [run_bind]
+  simp only [run_get]
+  have hnz : (s.safeMode != 0) = true := by simp [hm]
+  cases hp : s.opts.specials with
+  | none =>
+    refine ⟨d.expand.merge s.opts, ?_, ?_⟩
+    · simp
+    · simp [Expand.merge, hp, hd]
+  | some b =>
+    cases b with
+    | true =>
+      refine ⟨d.expand.merge s.opts, ?_, ?_⟩
+      · simp
+      · simp [Expand.merge, hp]
+    | false =>
+      refine ⟨{ d.expand.merge s.opts with specials := d.expand.specials }, ?_, hd⟩
+      simp [hnz]
+
+/-- every default block definition except the two whose content is not written as text (macro definitions) or is
+    filtered by the HTML policy (HTML blocks) escapes special characters -/
+theorem default_blocks_escape_specials :
+    Gen.blockDefaultDefs.all (fun d => d.expand.specials == some true || d.name == "macro-definition".toList ||
+      d.name == "html".toList) = true := by decide +kernel
+
+/-- in a safe mode the parser refuses `-specials` (with a diagnostic) and leaves the options as they were -/
+theorem minus_specials_refused_in_safe_mode (e : Expand) (opt : Str) (s : Session) (hm : s.safeMode ≠ 0)
+    (ho : (opt == "-specials".toList) = true) :
+    (expandParseOne e opt).run s =
+      .ok (e, if s.callback then { s with log := s.log ++ ["-specials block option not valid in safeMode".toList] } else s) := by
+  unfold expandParseOne
+  rw [run_bind, run_isSafeModeNz]
+  have h1 : (s.safeMode != 0) = true := by simp [hm]
+  have hnz : ((s.safeMode != 0) && opt == "-specials".toList) = true := by rw [h1, ho]; rfl
+  simp only [hnz, if_true]
+  rw [run_bind, run_errorCallback]
+  rfl
+
 /-! ## Non-vacuity / concrete instances (evaluated in the kernel on the generated tables) -/
+
+/-- F29: `-specials` left pending by a render at safe mode 0 does not un-escape the code block of the next render at
+    safe mode 1 -/
+example :
+    (match (apiRender ⟨fun _ _ => .error⟩ 30 "p\n\n.-specials".toList { safeMode := .int 0 }).run Session.uninit with
+     | .ok (_, s) =>
+       (match (apiRender ⟨fun _ _ => .error⟩ 30 "``\n<b>\n``".toList { safeMode := .int 1 }).run s with
+        | .ok (html, _) => html == "<pre><code>&lt;b&gt;</code></pre>".toList
+        | .error _ => false)
+     | .error _ => false) = true := by decide +kernel
 
 /-- the witnesses of the repaired defects render confined in safe mode 1 -/
 example :
